@@ -124,6 +124,12 @@ pub enum Act {
         fluct: Option<u128>,
         twap: Option<u64>,
     },
+    /// cw20 collateral: the trader sets the engine's allowance on their wallet to exactly `amt` (Increase/DecreaseAllowance
+    /// sent by the trader to the token); a no-op with native collateral. An environment step for the oracles.
+    Allowance {
+        t: String,
+        amt: u128,
+    },
     /// drain `amt` from the insurance fund purse (a bank/cw20 move by the harness standing for
     /// the fund having paid out elsewhere) — only used by seeds
     Note(String),
@@ -155,6 +161,7 @@ impl Act {
             Act::DepRaw { by, vamm, amt } => Act::DepRaw { by, vamm, amt: amt * k },
             Act::RawOp { by, op, vamm, trader, amt } => Act::RawOp { by, op, vamm, trader, amt: amt * k },
             Act::Funded { a, funds } => Act::Funded { a: Box::new(a.scaled(k)), funds: funds * k },
+            Act::Allowance { t, amt } => Act::Allowance { t, amt: amt * k },
             Act::EngConfig { by, imr, mmr, plr, lf } => Act::EngConfig { by, imr: o(&imr), mmr: o(&mmr), plr: o(&plr), lf: o(&lf) },
             Act::VammConfig { by, v, toll, spread, fluct, twap } => Act::VammConfig { by, v, toll: o(&toll), spread: o(&spread), fluct: o(&fluct), twap },
             a => a,
@@ -260,6 +267,7 @@ impl Act {
             Act::Funded { .. } => unreachable!(),
             Act::EngConfig { .. } => "engine_config",
             Act::VammConfig { .. } => "vamm_config",
+            Act::Allowance { .. } => "allowance",
             Act::Note(_) => "note",
         }
     }
@@ -642,6 +650,25 @@ pub fn apply_fault(w: &mut World, a: &Act, fail_at: Option<u32>) -> Outcome {
                 0,
                 fail_at,
             )
+        }
+        Act::Allowance { t, amt } => {
+            if let Some(tok) = w.token.clone() {
+                let cur: cw20::AllowanceResponse = w
+                    .app
+                    .wrap()
+                    .query_wasm_smart(tok.clone(), &cw20::Cw20QueryMsg::Allowance { owner: t.clone(), spender: eng.to_string() })
+                    .unwrap();
+                let cur = cur.allowance.u128();
+                if cur > *amt {
+                    let o = w.exec(t, &tok, &cw20::Cw20ExecuteMsg::DecreaseAllowance { spender: eng.to_string(), amount: Uint128::new(cur - *amt), expires: None }, 0);
+                    assert!(o.ok, "allowance step failed: {}", o.err);
+                } else if cur < *amt {
+                    let o = w.exec(t, &tok, &cw20::Cw20ExecuteMsg::IncreaseAllowance { spender: eng.to_string(), amount: Uint128::new(*amt - cur), expires: None }, 0);
+                    assert!(o.ok, "allowance step failed: {}", o.err);
+                }
+                w.tap.reset(None);
+            }
+            env_ok()
         }
         Act::Note(_) => env_ok(),
     }
